@@ -1,0 +1,29 @@
+//go:build verif && amd64 && go1.17 && !go1.27
+// +build verif,amd64,go1.17,!go1.27
+
+package encoder
+
+import (
+	"reflect"
+
+	"github.com/bytedance/sonic/internal/encoder/vars"
+	"github.com/bytedance/sonic/internal/encoder/x86"
+)
+
+// VerifExportPcsp compiles and assembles the encoder of vt (not loaded, not cached) and returns the size of the
+// generated text, its PC -> SP-delta table as handed to the loader, and the pointer maps and sizes declared for it.
+func VerifExportPcsp(vt reflect.Type, pv bool) (size int, pcs []uint32, vals []int32, argPtrs []bool, localPtrs []bool, argSize int, err error) {
+	pp, err := NewCompiler().Compile(vt, pv)
+	if err != nil {
+		return
+	}
+	as := x86.NewAssembler(pp)
+	as.Name = vt.String()
+	text, pcd := as.Export()
+	size = len(text)
+	for _, e := range pcd {
+		pcs = append(pcs, e.PC)
+		vals = append(vals, e.Val)
+	}
+	return size, pcs, vals, append([]bool(nil), vars.ArgPtrs...), append([]bool(nil), vars.LocalPtrs...), x86.FP_args, nil
+}
